@@ -1,52 +1,130 @@
 (* C18 model driver: `open C18_m`, conv.inc and Common are prepended by bin/setup.
-   seq lines: the uniforms listed in the case are the stream handed to the extracted samplers; the K sampler
-   calls thread the remaining stream.  Output: the values, the number of uniforms consumed, and 1 (the model is a
-   function of the stream, so a second run from the same stream is identical by construction). *)
+   seq / seqn lines: the uniforms listed in the case are the streams handed to the extracted samplers; the K sampler
+   calls thread the state (stream of the current generator, stream of the other generator).  Output: the values, the
+   number of uniforms consumed, and 1 (the model is a function of the streams, so a second run from the same
+   streams is identical by construction).
+   A call is a function  state -> state  that emits its values; `onaux` swaps the two streams around a call;
+   `nest` makes the user function of the outer call re-entrant: at every evaluation it runs the inner call on the
+   stream of the outer sampler (same) or on the other one (other) and hands the reduced result to the function
+   expression as z.  Pure calls go through the samplers of section Model, nested ones through section ModelSt. *)
 open Common
 exception Outcome of string
 let unres = function Ok a -> a | Exit -> raise (Outcome "EXIT") | OOB -> raise (Outcome "OOB") | Fuel -> raise (Outcome "FUEL")
 let fun2 (e : fexpr) : float -> float -> float = fun x y -> eval_fexpr e [| x; y; 0.0 |]
 let zint r = z_of_int (integer r)
 
-(* parses one sampler call; returns a function from the stream to the remaining stream that prints the values *)
-let parse_op r : float list -> float list =
+(* values emitted by a call: collected (for the reduction of an inner call) and printed unless inside a user function *)
+let data : float list ref = ref []
+let quiet = ref 0
+let out_f x = data := x :: !data; if !quiet = 0 then put_f x
+let out_i k = data := float_of_int k :: !data; if !quiet = 0 then put_i k
+let out_count k = if !quiet = 0 then put_i k
+(* canonical draws made (both streams together) at the first evaluations of re-entrant user functions *)
+let total = ref 0
+let nev = ref 0
+let first_pos : int list ref = ref []
+
+type state = float list * float list
+type nest = { same : bool; red : string; inner : state -> state; mutable calls : int }
+
+let reduce red (d : float list) =     (* d in emission order *)
+  if red = "count" then float_of_int (List.length d)
+  else if d = [] || red = "none" then 0.0
+  else if red = "last" then List.nth d (List.length d - 1)
+  else List.fold_left (fun s x -> s +. x) 0.0 d /. float_of_int (List.length d)
+
+(* the re-entrant user function: arguments -> state -> Ok (value, state) *)
+let call_nest (n : nest) (eval : float -> float) ((us, aux) : state) =
+  incr nev; n.calls <- n.calls + 1;
+  if List.length !first_pos < 6 then first_pos := (!total - List.length us - List.length aux) :: !first_pos;
+  let saved = !data in
+  data := []; incr quiet;
+  let st' =
+    (try if n.same then n.inner (us, aux) else (let (a', u') = n.inner (aux, us) in (u', a'))
+     with e -> decr quiet; data := saved; raise e) in
+  let z = reduce n.red (List.rev !data) in
+  decr quiet; data := saved;
+  Ok (eval z, st')
+
+let rec parse_op ?nest r : state -> state =
   match word r with
+  | "onaux" -> let f = parse_op ?nest r in
+      fun (us, aux) -> let (aux', us') = f (aux, us) in (us', aux')
+  | "nest" ->
+      let same = (word r = "same") in let red = word r in
+      let inner = parse_op r in
+      let n = { same; red; inner; calls = 0 } in
+      let outer = parse_op ~nest:n r in
+      fun s -> let before = n.calls in let s' = outer s in out_count (n.calls - before); s'
   | "uniform" -> let a = num r in let b = num r in
-      fun us -> let (v, rest) = unres (sample_uniform fops a b us) in put_f v; rest
+      fun (us, aux) -> let (v, rest) = unres (sample_uniform fops a b us) in out_f v; (rest, aux)
   | "gauss" -> let a = num r in let b = num r in
-      fun us -> let (v, rest) = unres (sample_gauss fops a b us) in put_f v; rest
+      fun (us, aux) -> let (v, rest) = unres (sample_gauss fops a b us) in out_f v; (rest, aux)
   | "poisson" -> let lam = num r in
-      fun us -> let (k, rest) = unres (sample_poisson fops lam us) in put_i (int_of_z k); rest
+      fun (us, aux) -> let (k, rest) = unres (sample_poisson fops lam us) in out_i (int_of_z k); (rest, aux)
   | "poissonv" -> let lams = list r in
-      fun us -> let (ks, rest) = unres (sample_poisson_list fops lams us) in put_il (List.map int_of_z ks); rest
-  | "invt" -> let a = num r in let b = num r in let cdf = fun1 (parse_fexpr r) in
-      fun us -> let (v, rest) = unres (inverse_transform fops cdf a b us) in put_f v; rest
-  | "rej" -> let a = num r in let b = num r in let ym = num r in let pdf = fun1 (parse_fexpr r) in
-      fun us -> let (v, rest) = unres (rejection_sampling fops pdf a b ym us) in put_f v; rest
+      fun (us, aux) -> let (ks, rest) = unres (sample_poisson_list fops lams us) in
+        out_count (List.length ks); List.iter (fun k -> out_i (int_of_z k)) ks; (rest, aux)
+  | "invt" -> let a = num r in let b = num r in let e = parse_fexpr r in
+      (match nest with
+       | None -> let cdf = fun1 e in
+           fun (us, aux) -> let (v, rest) = unres (inverse_transform fops cdf a b us) in out_f v; (rest, aux)
+       | Some n ->
+           fun s -> let (v, s') = unres (inverse_transform_st fops (fun x st -> call_nest n (fun z -> eval_fexpr e [| x; 0.0; z |]) st) a b s) in
+             out_f v; s')
+  | "rej" -> let a = num r in let b = num r in let ym = num r in let e = parse_fexpr r in
+      (match nest with
+       | None -> let pdf = fun1 e in
+           fun (us, aux) -> let (v, rest) = unres (rejection_sampling fops pdf a b ym us) in out_f v; (rest, aux)
+       | Some n ->
+           fun s -> let (v, s') = unres (rejection_sampling_st fops (fun x st -> call_nest n (fun z -> eval_fexpr e [| x; 0.0; z |]) st) a b ym s) in
+             out_f v; s')
   | "rej2" -> let a = num r in let b = num r in let c = num r in let d = num r in let zm = num r in
-      let pdf = fun2 (parse_fexpr r) in
-      fun us -> let ((x, y), rest) = unres (rejection_sampling_2d fops pdf a b c d zm us) in put_f x; put_f y; rest
+      let e = parse_fexpr r in
+      (match nest with
+       | None -> let pdf = fun2 e in
+           fun (us, aux) -> let ((x, y), rest) = unres (rejection_sampling_2d fops pdf a b c d zm us) in out_f x; out_f y; (rest, aux)
+       | Some n ->
+           fun s -> let ((x, y), s') = unres (rejection_sampling_2d_st fops (fun x y st -> call_nest n (fun z -> eval_fexpr e [| x; y; z |]) st) a b c d zm s) in
+             out_f x; out_f y; s')
   | "metro" -> let sigma = num r in let sample = zint r in let thin = zint r in let burn = zint r in
-      let dom = list r in let pdf = fun1 (parse_fexpr r) in
-      fun us -> let (l, rest) = unres (sample_metropolis fops pdf sigma sample thin burn dom us) in put_fl l; rest
+      let dom = list r in let e = parse_fexpr r in
+      (match nest with
+       | None -> let pdf = fun1 e in
+           fun (us, aux) -> let (l, rest) = unres (sample_metropolis fops pdf sigma sample thin burn dom us) in
+             out_count (List.length l); List.iter out_f l; (rest, aux)
+       | Some n ->
+           fun s -> let (l, s') = unres (sample_metropolis_st fops (fun x st -> call_nest n (fun z -> eval_fexpr e [| x; 0.0; z |]) st) sigma sample thin burn dom s) in
+             out_count (List.length l); List.iter out_f l; s')
   | "metro2" -> let s1 = num r in let s2 = num r in let sample = zint r in let thin = zint r in let burn = zint r in
-      let dom = list r in let pdf = fun2 (parse_fexpr r) in
-      fun us -> let (l, rest) = unres (sample_metropolis_2d fops pdf s1 s2 sample thin burn dom us) in
-        put_i (List.length l); List.iter (fun (x, y) -> put_f x; put_f y) l; rest
+      let dom = list r in let e = parse_fexpr r in
+      (match nest with
+       | None -> let pdf = fun2 e in
+           fun (us, aux) -> let (l, rest) = unres (sample_metropolis_2d fops pdf s1 s2 sample thin burn dom us) in
+             out_count (List.length l); List.iter (fun (x, y) -> out_f x; out_f y) l; (rest, aux)
+       | Some n ->
+           fun s -> let (l, s') = unres (sample_metropolis_2d_st fops (fun x y st -> call_nest n (fun z -> eval_fexpr e [| x; y; z |]) st) s1 s2 sample thin burn dom s) in
+             out_count (List.length l); List.iter (fun (x, y) -> out_f x; out_f y) l; s')
   | o -> failwith ("unknown_op_" ^ o)
 
 let handler r =
   match word r with
-  | "seq" ->
+  | ("seq" | "seqn") as kind ->
+      let two = (kind = "seqn") in
       let _seed = word r in
       let ns = integer r in
       for _ = 1 to ns do ignore (word r) done;
       let us = list r in
+      let aux = if two then (ignore (word r); list r) else [] in
       let k = integer r in
       let ops = List.init k (fun _ -> parse_op r) in
+      data := []; quiet := 0; nev := 0; first_pos := []; total := List.length us + List.length aux;
       (try
-         let rest = List.fold_left (fun s f -> f s) us ops in
-         put_i (List.length us - List.length rest); put_i 1
+         let (rest, rest2) = List.fold_left (fun s f -> f s) (us, aux) ops in
+         put_i (List.length us - List.length rest);
+         if two then put_i (List.length aux - List.length rest2);
+         put_i 1;
+         if two then (put_i !nev; put_il (List.rev !first_pos))
        with Outcome w -> Buffer.clear buf; first := true; put_w w)
   | "mgrid" ->
       let _seed = word r in
